@@ -911,10 +911,18 @@ func c11Callbacks(r *core.Run, rel, name string, m *ssa.Function, idF core.Field
 	// state = number of fan-outs so far (0, 1, 2+) + 3 * what a nil test has established about the
 	// error value a return hands back (0 unknown, 1 nil, 2 non-nil): `if err == nil { fan out };
 	// return err` is a success return with one fan-out and an error return with none
-	returned := map[ssa.Value]bool{}
+	// (the knowledge is about one particular value: k = 0 unknown, 1+2i = the i-th returned value is
+	// nil, 2+2i = it is non-nil; a test of another value replaces it)
+	returned := map[ssa.Value]int{}
 	for _, ret := range core.Returns(m) {
 		if len(ret.Results) == 1 {
-			returned[core.Strip(ret.Results[0])] = true
+			v := core.Strip(ret.Results[0])
+			if _, isC := v.(*ssa.Const); isC {
+				continue
+			}
+			if _, ok := returned[v]; !ok && len(returned) < 8 {
+				returned[v] = len(returned)
+			}
 		}
 	}
 	fl := &core.Flow{Fn: m, Entry: core.StateSet(0).Add(0)}
@@ -926,27 +934,32 @@ func c11Callbacks(r *core.Run, rel, name string, m *ssa.Function, idF core.Field
 	}
 	fl.Branch = func(iff *ssa.If, succ int, s int) (int, bool) {
 		ci := core.Cond(iff.Cond)
-		if ci.Kind != "nilcmp" || !returned[core.Strip(ci.X)] {
+		if ci.Kind != "nilcmp" {
+			return s, true
+		}
+		i, ok := returned[core.Strip(ci.X)]
+		if !ok {
 			return s, true
 		}
 		truth := succ == 0
 		if ci.Negate {
 			truth = !truth
 		}
-		k := 2
+		k := 2 + 2*i
 		if (ci.Op == token.EQL) == truth {
-			k = 1
+			k = 1 + 2*i
 		}
 		return s%3 + 3*k, true
 	}
 	fl.EvalBoolAt = func(v ssa.Value, s int) int8 {
-		if !returned[core.Strip(v)] {
+		i, ok := returned[core.Strip(v)]
+		if !ok {
 			return 0
 		}
 		switch s / 3 {
-		case 1:
+		case 1 + 2*i:
 			return 2 // nil
-		case 2:
+		case 2 + 2*i:
 			return 1 // non-nil
 		}
 		return 0
